@@ -85,6 +85,9 @@ FUNCS = [
     ("rtrlib/rtr/packets.c", "rtr_pdu_header_to_network_byte_order", {"mem": ["pdu"], "writes": True}),
     ("rtrlib/rtr/packets.c", "rtr_receive_pdu", {"xworld": "struct rtr_socket", "mem": ["pdu"], "writes": True, "memlocals": ["header"],
                                                   "opaque": ["txt"]}),
+    ("rtrlib/rtr/packets.c", "rtr_set_last_update", {"xworld": "struct rtr_socket"}),
+    ("rtrlib/rtr/packets.c", "rtr_handle_error_pdu", {"xworld": "struct rtr_socket", "mem": ["buf"]}),
+    ("rtrlib/rtr/packets.c", "rtr_handle_cache_response_pdu", {"xworld": "struct rtr_socket", "mem": ["pdu"]}),
     ("rtrlib/rtr/packets.c", "rtr_wait_for_sync", {"xworld": "struct rtr_socket", "localbuf": "pdu"}),
     ("rtrlib/rtr/packets.c", "rtr_sync", {"xworld": "struct rtr_socket", "localbuf": "pdu"}),
     ("rtrlib/rtr/packets.c", "rtr_send_serial_query", {"xworld": "struct rtr_socket"}),
